@@ -3,6 +3,7 @@
 from __future__ import absolute_import
 
 import sys
+import json
 
 import awkward as ak
 
@@ -12,13 +13,18 @@ from awkward._typeparser.generated_parser import Lark_StandAlone, Transformer
 class TreeToJson(Transformer):
     def string(self, s):
         (s,) = s
+        if s.startswith('"'):
+            # a JSON string: decode its escape sequences
+            s = json.loads(s, strict=False)
+        else:
+            s = s[1:-1]
         if sys.version_info[0] == 2:
             s = s.encode("utf-8")
-        return s[1:-1]
+        return s
 
     def number(self, n):
         (n,) = n
-        if "." in n:
+        if "." in n or "e" in n or "E" in n:
             return float(n)
         else:
             return int(n)
